@@ -13,6 +13,7 @@ import os
 import re
 import shutil
 import sys
+import time
 import vlib
 sys.path.insert(0, os.path.dirname(os.path.abspath(__file__)))
 import factgen  # noqa: E402
@@ -152,6 +153,8 @@ def run_images(ctx, model, exe):
     wlines = {fmt: ["%d %d %d" % (w, h, sd) for (w, h), sd in zip(wsz[fmt], wseeds[fmt])] for fmt in FMT}
 
     def run_model_wide(fmt):
+        if not model:
+            return (None, "", "no model")
         return ctx.run_exe("/bin/bash", ["-c", 'ulimit -s unlimited 2>/dev/null || ulimit -s 4000000; exec "$0" "$@"', model, "imgpat", fmt],
                            stdin="\n".join(wlines[fmt]) + "\n", timeout=600)
     # the extracted model is linear in the image size but slow per component: the six runs go on in the background (4 at a time)
@@ -173,14 +176,18 @@ def run_images(ctx, model, exe):
                 if t and not l.startswith("#"):
                     cases.append((int(t[0]), int(t[1]), [int(x) for x in t[2:]]))
         lines = ["%d %d %s" % (w, h, " ".join(map(str, v))) for (w, h, v) in cases]
-        rc, mout, merr = ctx.run_exe(model, ["img", fmt], stdin="\n".join(lines) + "\n")
-        mlines = mout.split("\n")[:-1]
-        if rc != 0 or len(mlines) != len(cases):
-            ctx.broken.append("model driver failed on images %s rc=%s %s" % (fmt, rc, merr[-300:]))
-            continue
-        if any(l.startswith("FASTPATH-MISMATCH") for l in mlines):
+        mlines = None
+        if model:
+            rc, mout, merr = ctx.run_exe(model, ["img", fmt], stdin="\n".join(lines) + "\n")
+            mlines = mout.split("\n")[:-1]
+            if rc != 0 or len(mlines) != len(cases):
+                ctx.broken.append("model driver failed on images %s rc=%s %s" % (fmt, rc, merr[-300:]))
+                mlines = None
+        if mlines is None:
+            mlines = [None] * len(cases)          # no model bytes: the decoded file is still compared with the input
+        if any(l and l.startswith("FASTPATH-MISMATCH") for l in mlines):
             ctx.broken.append("driver: the linear evaluation of the model's index list disagrees with Model.writeImage (%s)" % fmt)
-            mlines = [l.replace("FASTPATH-MISMATCH ", "") for l in mlines]
+            mlines = [l.replace("FASTPATH-MISMATCH ", "") if l else l for l in mlines]
         hist[fmt] = len(cases)
         ctx.count(len(cases))
         # run the real code; restart after a crash so the remaining cases are still seen
@@ -207,7 +214,7 @@ def run_images(ctx, model, exe):
             why = image_oracle(data, fmt, w, h, vals)
             if why:
                 viol.append((w * h, i, why, data))
-            elif data.hex() != mlines[i]:
+            elif mlines[i] is not None and data.hex() != mlines[i]:
                 corr.append((i, data.hex(), mlines[i]))
         if crashes:
             i, rc, err = min(crashes, key=lambda c: cases[c[0]][0] * cases[c[0]][1])
@@ -226,7 +233,7 @@ def run_images(ctx, model, exe):
             ctx.violation("%s(%dx%d) reads outside the %d pixels it was given (sanitizer report / crash rc=%d on the exact-size buffer)"
                           % (API[fmt], w, h, w * h, rc),
                           {"api": API[fmt], "format": fmt, "w": w, "h": h, "pixel_components": vals,
-                           "stderr_tail": err[-2500:], "model": mlines[i][:200],
+                           "stderr_tail": err[-2500:], "model": (mlines[i] or "")[:200],
                            "required": "reads only indices < w*h*PIXEL_COMP; decoded = %s" % required_image(fmt, w, h, vals)[:32],
                            "observed_when_not_trapping": shown, "crashes_in_this_format": len(crashes)})
         if viol:
@@ -239,7 +246,7 @@ def run_images(ctx, model, exe):
             ctx.violation("%s(%dx%d): %s" % (API[fmt], w, h, why),
                           {"api": API[fmt], "format": fmt, "w": w, "h": h, "pixel_components": vals, "file_hex": data.hex()[:4000],
                            "observed_decoded": dec, "required_decoded": required_image(fmt, w, h, vals),
-                           "model_file_hex": mlines[i][:4000], "failing_cases_in_this_format": len(viol)})
+                           "model_file_hex": (mlines[i] or "")[:4000], "failing_cases_in_this_format": len(viol)})
         elif corr and not crashes:
             i, a, b = corr[0]
             ctx.broken.append("correspondence C20 image model vs %s on %dx%d: file=%s model=%s (file decodes to the input)"
@@ -307,6 +314,8 @@ def run_images(ctx, model, exe):
         """compare the digests of the wide files with the model's (collected late: the model runs overlap the trace part)"""
         for (fmt, seeds, lines, digests, wsizes) in pending:
             rcm, mout, merr = mfut[fmt].result()
+            if rcm is None:
+                continue                      # no model
             mlines = mout.split("\n")[:-1]
             if rcm != 0 or len(mlines) != len(lines):
                 ctx.broken.append("model driver failed on wide images %s rc=%s %s" % (fmt, rcm, merr[-300:]))
@@ -816,8 +825,23 @@ def with_ids(c, infos):
     return dict(c, ids=[inf[3] for inf in infos])
 
 
+PUBLIC = [False]      # set by run(): the harness is the public-interface build (one case per process)
+
+
 def run_harness_trace(ctx, exe, cases, od):
     os.makedirs(od, exist_ok=True)
+    if PUBLIC[0]:
+        res, rc_all, err_all = [], 0, ""
+        for i, c in enumerate(cases):
+            odi = os.path.join(od, "c%d" % i)
+            os.makedirs(odi, exist_ok=True)
+            rc, out, err = ctx.run_exe(exe, ["trace", odi], stdin=case_line(c) + "\n", timeout=300)
+            ls = out.split("\n")[:-1]
+            if rc != 0 or not ls:
+                return rc or 1, res, err
+            p, _, rest = ls[0].partition(" ")
+            res.append((p, [parse_info(x) for x in rest.split(";")] if rest.strip() else []))
+        return rc_all, res, err_all
     rc, out, err = ctx.run_exe(exe, ["trace", od], stdin="\n".join(case_line(c) for c in cases) + "\n", timeout=900)
     res = []
     for l in out.split("\n")[:-1]:
@@ -836,7 +860,7 @@ def run_model(ctx, model, lines):
 def shrink_trace(ctx, exe, c, od):
     """smaller case on which the oracle still fails (keeps every thread properly nested)."""
     def fails(cc):
-        if not all(well_nested(o) for _, o in cc["threads"]):
+        if over_budget() or not all(well_nested(o) for _, o in cc["threads"]):
             return False
         cc = dict(cc, balanced=True, ids=None)
         rc, res, err = run_harness_trace(ctx, exe, [cc], od)
@@ -912,7 +936,8 @@ def shrink_chunk_overflow(ctx, exe, c, k, od, orig_info):
     return best[1], best[0]
 
 
-def run_trace(ctx, model, exe):
+def run_trace(ctx, model, exe, public=False):
+    PUBLIC[0] = public
     cases = trace_cases(ctx)
     od = os.path.join(ctx.build, "trace")
     shutil.rmtree(od, ignore_errors=True)
@@ -1015,17 +1040,21 @@ def run_trace(ctx, model, exe):
             pid = int(m.group(1)) if m else 0
         if any(x is None for x in order):
             continue
-        ml = model_line(c, order, pid, infos)
+        ml = model_line(c, order, pid, infos) if (model and not public) else None
         if ml is None:
             # the clock values reported for a list must be as many as the events its threads recorded
-            if not pb:
+            if not pb and model and not public:
                 ctx.broken.append("harness: recorded event count differs from the script in case %s" % c["tag"])
             continue
         mlines.append(ml)
         midx.append(i)
         texts[i] = (text, pb)
         orders[i] = order
-    rc, mout, merr = run_model(ctx, model, mlines)
+    if not mlines:
+        mout = []
+        rc, merr = 0, ""
+    else:
+        rc, mout, merr = run_model(ctx, model, mlines)
     if rc != 0 or len(mout) != len(mlines):
         ctx.broken.append("model driver failed on traces rc=%s lines=%d/%d %s" % (rc, len(mout), len(mlines), merr[-300:]))
         return
@@ -1073,7 +1102,7 @@ def run_trace(ctx, model, exe):
     ctx.cov["trace_threads_histogram"] = {str(n): sum(1 for c in cases if len(c["threads"]) == n) for n in range(0, 9)}
 
 
-def run_race(ctx, exe_tsan):
+def run_race(ctx, exe_tsan, public=False):
     """N threads released by a barrier record their FIRST event at the same moment (registration of the thread's list in the
     recorder's map), many rounds with fresh recorders, under ThreadSanitizer; every thread's events exactly once in each log."""
     od = os.path.join(ctx.build, "race")
@@ -1092,7 +1121,7 @@ def run_race(ctx, exe_tsan):
             why = "%s%s (rc=%d)" % (m.group(1) if m else "crashed", "; " + "; ".join(dict.fromkeys(f.strip()[:120] for f in frames[:4])) if frames else "", rc)
         elif not o.startswith("OK"):
             why = o[:400] or "no output"
-        else:
+        elif not public:
             # independent reading of the last round's log
             path = o.split()[-1]
             try:
@@ -1296,6 +1325,31 @@ def inventory_check(ctx, counts):
                             "executed": report}
 
 
+class Stage:
+    """One stage of the check: an exception inside it is recorded (ctx.broken names the stage) and the run goes on."""
+    def __init__(self, ctx, name):
+        self.ctx, self.name = ctx, name
+
+    def __enter__(self):
+        return self
+
+    def __exit__(self, et, ev, tb):
+        if et is not None and issubclass(et, Exception):
+            import traceback
+            self.ctx.log("stage %s raised:\n%s" % (self.name, "".join(traceback.format_exception(et, ev, tb))[-2000:]))
+            self.ctx.broken.append("stage '%s' of the check raised %s: %s" % (self.name, et.__name__, str(ev)[:200]))
+            return True
+        return False
+
+
+BUDGET_S = 210      # wall-clock budget: shrinkers stop (keeping what they have) when it is used up
+T_START = [0.0]
+
+
+def over_budget():
+    return T_START[0] and time.time() - T_START[0] > BUDGET_S
+
+
 FACT_THMS = ("facts_image_loop_nest", "facts_image_index", "facts_image_stack_one_row", "facts_image_formats", "facts_trace_match", "facts_trace_model")
 
 
@@ -1316,14 +1370,22 @@ def source_facts(ctx):
 
 
 def run(ctx):
-    facts = source_facts(ctx)
-    res = ctx.coq_check(("Properties.v", "PropertiesFactsImg.v", "PropertiesFactsTrace.v"))
+    T_START[0] = time.time()
+    facts, res, model = {"notes": ["not run"]}, {}, None
+    with Stage(ctx, "fact extraction"):
+        facts = source_facts(ctx)
+    with Stage(ctx, "Coq build"):
+        res = ctx.coq_check(("Properties.v", "PropertiesFactsImg.v", "PropertiesFactsTrace.v"))
     bad_facts = [t for t in FACT_THMS if not res.get(t)]
     if bad_facts:
         ctx.log("source-derived obligations that no longer hold: %s; extractor notes: %s; extracted: %s"
                 % (bad_facts, facts.get("notes"), json.dumps({k: facts.get(k) for k in ("img", "fmt", "tr")})[:2000]))
     ctx.cov["source_obligations_broken"] = bad_facts
-    model = ctx.extract(snippets=["conv_N.ml"])
+    with Stage(ctx, "extraction / OCaml model build"):
+        model = ctx.extract(snippets=["conv_N.ml"])
+    if not model:
+        ctx.log("no executable model: the files written by the real code are judged by the independent python readers alone; "
+                "model-vs-code comparison skipped")
     # SaveImage.h / Tracing.cpp may call into other translation units of the library (memory/malloc.cpp, common.cpp ...): link what
     # they plausibly need, and if a build still fails retry it once with a wider set - every build that can be made is run
     base_src = ["rkcommon/memory/malloc.cpp"]
@@ -1338,14 +1400,31 @@ def run(ctx):
     if exe_tsan is None:
         ctx.broken[:] = [b for b in ctx.broken if b != "harness build harness_tsan"]
         exe_tsan = ctx.cxx(["harness.cpp"], "harness_tsan", repo_sources=wide_src, sanitize="tsan", libs=["-ldl"])
-    if not model or not exe:
-        return
-    finish_wide = run_images(ctx, model, exe)
-    try:
-        run_trace(ctx, model, exe)
-        if exe_tsan:
-            run_race(ctx, exe_tsan)
-    finally:
+    public = False
+    if exe is None or exe_tsan is None:
+        # the harness includes Tracing.cpp as a translation unit and reads the recorder's internals; if that no longer compiles
+        # against this tree, build on the public interface (Tracing.h + the library's Tracing.cpp): one case per process
+        pub_src = [x for x in wide_src + ["rkcommon/tracing/Tracing.cpp"] if os.path.exists(os.path.join(ctx.repo, x))]
+        ctx.broken[:] = [b for b in ctx.broken if b not in ("harness build harness", "harness build harness_tsan")]
+        pe, pt = ctx.cxx_many([dict(sources=["harness.cpp"], out="harness_pub", repo_sources=pub_src, sanitize="asan", flags=["-DC20_PUBLIC"], libs=["-ldl"]),
+                               dict(sources=["harness.cpp"], out="harness_pub_tsan", repo_sources=pub_src, sanitize="tsan", flags=["-DC20_PUBLIC"], libs=["-ldl"])])
+        if exe is None and pe:
+            exe, public = pe, True
+            ctx.log("the internal-state harness does not compile against this tree: public-interface build, one trace case per process, "
+                    "no chunk sizes / clock values (model comparison of traces skipped)")
+        if exe_tsan is None:
+            exe_tsan = pt
+    ctx.cov["public_interface_fallback"] = public
+    finish_wide = lambda: None      # noqa: E731
+    if exe:
+        with Stage(ctx, "images"):
+            finish_wide = run_images(ctx, model, exe)
+        with Stage(ctx, "traces"):
+            run_trace(ctx, model, exe, public)
+    if exe_tsan:
+        with Stage(ctx, "concurrent first events (TSan)"):
+            run_race(ctx, exe_tsan, public)
+    with Stage(ctx, "wide images: model digests"):
         finish_wide()
     counts = {}
     for fmt in FMT:
